@@ -355,6 +355,21 @@ impl Default for KBucket {
     }
 }
 
+#[cfg(mainline_verif)]
+impl RoutingTable {
+    /// Verification hook: (dht_size_estimates_count, dht_size_estimates_sum, responders_samples_count,
+    /// responders_size_estimates_sum, responders_subnets_sum).
+    pub fn verif_stats(&self) -> (usize, f64, usize, f64, usize) {
+        (
+            self.dht_size_estimates_count,
+            self.dht_size_estimates_sum,
+            self.responders_samples_count,
+            self.responders_size_estimates_sum,
+            self.responders_subnets_sum,
+        )
+    }
+}
+
 #[cfg(test)]
 mod test {
     use std::net::SocketAddrV4;
